@@ -115,7 +115,8 @@ def _mutate(head, form, op, version, kind=None, markings=None, selectors="$op"):
 
 
 def _pairs_of(x):
-    return mm.read_pairs(ser(x))
+    # a marking that is not text (a definition object left in a plain dict) is compared by its JSON text: it can never equal an identifier
+    return [(s, k, m if isinstance(m, str) else "<not-an-identifier>" + json.dumps(m, sort_keys=True, default=str)) for s, k, m in mm.read_pairs(ser(x))]
 
 
 def _flags(op):
@@ -187,6 +188,18 @@ def _run(case, clock):
             if s == mm.OBJECT:
                 op.pop("marking_ref", None)
                 op.pop("lang", None)
+            if kind == "is_marked":
+                keep = 20 if k == mm.REF else 0       # the type prefix of an id stays
+                op["marking"] = {"same": m, "upper": m[:keep] + m[keep:].upper(), "swapcase": m[:keep] + m[keep:].swapcase(), "trailing-space": m + " ",
+                                 "chopped": m[:-1]}[op["respell"]]
+                op["near_miss"] = op["marking"] != m
+                op["as_object"] = bool(op.get("as_object")) and not op["near_miss"]
+                if s == mm.OBJECT:
+                    op.pop("inherited", None)
+                    op.pop("descendants", None)
+                else:
+                    op.setdefault("inherited", False)
+                    op.setdefault("descendants", False)
         cur["op"] = op
         sels = op.get("selectors")
         for s in sels or []:
@@ -219,6 +232,8 @@ def _run(case, clock):
             fl = {k: op[k] for k in ("inherited", "descendants") if k in op}
             if sels is not None:
                 classes.append("is_marked-flags:inh=%d,desc=%d,marking=%s" % (op["inherited"], op["descendants"], "none" if op["marking"] is None else mm.kind_of(op["marking"])))
+            if "respell" in op and "near_miss" in op:
+                classes.append("is_marked:aimed:" + ("near-miss-spelling" if op["near_miss"] else "own-spelling"))
             marg = None if op["marking"] is None else _marking_args([op["marking"]], op.get("as_object"), True, version)
             b, exc = _call(head, form, op, "is_marked", marg, _selector_args(sels, op.get("single")), **fl)
             lst, exc2 = _call(head, form, op, "get_markings", _selector_args(sels, op.get("single")), **fl)
@@ -356,6 +371,12 @@ def _run(case, clock):
                 fail("crash:%s" % type(exc).__name__, "%s at %s" % (core.fmt_exc(exc), core.lib_frame(exc)), i)
             continue
         d = ser(new)
+        odd = [m for m in (d.get("object_marking_refs") or []) if not isinstance(m, str)] + \
+              [gm for gm in (d.get("granular_markings") or []) if not isinstance(gm, dict) or not isinstance(gm.get("marking_ref", gm.get("lang")), str)]
+        if odd:
+            # what the object carries must be marking identifiers / language tags, whatever form the caller passed the marking in
+            fail("marking-stored-not-as-identifier:%s:%s" % (kind, level), "%s left %s in the marking properties" % (kind, core.short(odd, 200)), i)
+            continue
         pairs = mm.read_pairs(d)
         if is_md:
             if set(pairs) != model.pairs or mm.differing_keys(d, prev_doc, ignore=()):
@@ -449,6 +470,11 @@ def an_op(draw, version, form, usable, related, is_md):
         op["single"] = draw(st.booleans())
         pool = S.MARKING_IDS[:3] + (S.LANGS[:2] if version == "2.1" and op["selectors"] is not None else [])
         op["marking"] = None if draw(st.integers(0, 2)) == 0 else pick(draw, pool)
+        if op["marking"] is not None and draw(st.integers(0, 2)) == 0:
+            # aimed at a pair that is really there -- asked in its own spelling or in a near miss (a marking is "among the markings
+            # reported" only in the spelling in which it is reported)
+            op["pick"] = draw(st.integers(0, 11))
+            op["respell"] = pick(draw, ["same", "same", "upper", "swapcase", "trailing-space", "chopped"])
         op["as_object"] = draw(st.integers(0, 3)) == 0
         if op["selectors"] is not None:
             op.update({"inherited": draw(st.booleans()), "descendants": draw(st.booleans())})
